@@ -6,6 +6,7 @@ import (
 	"bytes"
 	"fmt"
 	"io"
+	"os"
 	"time"
 
 	"github.com/google/pprof/internal/driver"
@@ -322,6 +323,113 @@ func runC01(c *Ctx) {
 		}
 		return false
 	}
+	// VERIF_ONLY=history (set when another property reuses this harness for its "however often it
+	// has been run in the session" clause) runs the history streams alone
+	histories := func() {
+		// 1b. histories on ONE profile object: write/copy (or parse) leaves the encoder's scratch fields
+		// populated; labels are then removed or replaced and the profile is written again
+		for i := 0; i < c.Budget(150, 6000); i++ {
+			p := GenProfile(r, c01Knobs(r))
+			if p.CheckValid() != nil {
+				continue
+			}
+			b1, pan := c01Serialize(p)
+			if pan {
+				continue
+			}
+			if r.Bool() {
+				if q, err := profile.ParseUncompressed(b1); err == nil {
+					p = q
+				}
+			} else if r.Bool() {
+				_ = p.Copy()
+			}
+			for _, s := range p.Sample {
+				switch r.Intn(4) {
+				case 0:
+					s.Label, s.NumLabel, s.NumUnit = nil, nil, nil
+				case 1:
+					s.Label = map[string][]string{"fresh": {"x" + fmt.Sprint(i)}}
+				case 2:
+					s.NumLabel, s.NumUnit = map[string][]int64{"n": {int64(i) + 1}}, nil
+				}
+			}
+			if b := serCase("history", p, true, "history:labels-edited-after-write"); b != nil {
+				rtCase("history", p, true)
+			}
+		}
+		// 1b'. the same, editing the structure instead: detach or swap a location's mapping, point a line
+		// at another function, shorten a stack, drop a sample, rename a string -- what is written next
+		// must be a function of the profile's content, not of what was written before
+		for i := 0; i < c.Budget(150, 6000); i++ {
+			k := c01Knobs(r)
+			p := GenProfile(r, k)
+			if p.CheckValid() != nil || len(p.Location) == 0 {
+				continue
+			}
+			b1, pan := c01Serialize(p)
+			if pan {
+				continue
+			}
+			switch r.Intn(3) {
+			case 0:
+				if q, err := profile.ParseUncompressed(b1); err == nil && len(q.Location) > 0 {
+					p = q
+				}
+			case 1:
+				_ = p.Copy()
+			}
+			tag := ""
+			for n := 1 + r.Intn(3); n > 0; n-- {
+				switch r.Intn(6) {
+				case 0:
+					p.Location[r.Intn(len(p.Location))].Mapping = nil
+					tag += "+detach-mapping"
+				case 1:
+					if len(p.Mapping) > 0 {
+						p.Location[r.Intn(len(p.Location))].Mapping = p.Mapping[r.Intn(len(p.Mapping))]
+						tag += "+swap-mapping"
+					}
+				case 2:
+					l := p.Location[r.Intn(len(p.Location))]
+					if len(l.Line) > 0 && len(p.Function) > 0 {
+						l.Line[r.Intn(len(l.Line))].Function = p.Function[r.Intn(len(p.Function))]
+						tag += "+swap-function"
+					}
+				case 3:
+					if len(p.Sample) > 0 {
+						sm := p.Sample[r.Intn(len(p.Sample))]
+						if len(sm.Location) > 0 {
+							sm.Location = sm.Location[:r.Intn(len(sm.Location))]
+							tag += "+shorten-stack"
+						}
+					}
+				case 4:
+					if len(p.Sample) > 1 {
+						j := r.Intn(len(p.Sample))
+						p.Sample = append(p.Sample[:j:j], p.Sample[j+1:]...)
+						tag += "+drop-sample"
+					}
+				case 5:
+					if len(p.Function) > 0 {
+						f := p.Function[r.Intn(len(p.Function))]
+						f.Name, f.Filename = "renamed"+fmt.Sprint(i), ""
+						tag += "+rename"
+					}
+				}
+			}
+			if p.CheckValid() != nil {
+				continue
+			}
+			if b := serCase("history", p, true, "history:structure-edited-after-write", "edit:"+tag); b != nil {
+				rtCase("history", p, true)
+			}
+		}
+	}
+	if os.Getenv("VERIF_ONLY") == "history" {
+		histories()
+		return
+	}
 	var pool [][]byte
 	// 1. generated valid profiles
 	n := c.Budget(500, 20000)
@@ -335,38 +443,7 @@ func runC01(c *Ctx) {
 			rtCase("gen", p, nontriv(p))
 		}
 	}
-	// 1b. histories on ONE profile object: write/copy (or parse) leaves the encoder's scratch fields
-	// populated; labels are then removed or replaced and the profile is written again
-	for i := 0; i < c.Budget(150, 6000); i++ {
-		p := GenProfile(r, c01Knobs(r))
-		if p.CheckValid() != nil {
-			continue
-		}
-		b1, pan := c01Serialize(p)
-		if pan {
-			continue
-		}
-		if r.Bool() {
-			if q, err := profile.ParseUncompressed(b1); err == nil {
-				p = q
-			}
-		} else if r.Bool() {
-			_ = p.Copy()
-		}
-		for _, s := range p.Sample {
-			switch r.Intn(4) {
-			case 0:
-				s.Label, s.NumLabel, s.NumUnit = nil, nil, nil
-			case 1:
-				s.Label = map[string][]string{"fresh": {"x" + fmt.Sprint(i)}}
-			case 2:
-				s.NumLabel, s.NumUnit = map[string][]int64{"n": {int64(i) + 1}}, nil
-			}
-		}
-		if b := serCase("history", p, true, "history:labels-edited-after-write"); b != nil {
-			rtCase("history", p, true)
-		}
-	}
+	histories()
 	// 1c. pprof -proto through the driver, re-read: every sample keeps its frames (names, files, lines,
 	// columns, addresses), values and labels
 	for i := 0; i < c.Budget(120, 4000); i++ {
